@@ -1,8 +1,9 @@
 import PdeVerif.Json
 import PdeVerif.Model.Conserve
+import PdeVerif.Model.ConserveRun
 import PdeVerif.Drv.C02
 namespace PdeVerif.Drv.C05
-open Lean PdeVerif PdeVerif.Stencil PdeVerif.Conserve PdeVerif.BC
+open Lean PdeVerif PdeVerif.Stencil PdeVerif.Conserve PdeVerif.BC PdeVerif.Solvers
 open PdeVerif.Drv.C02 (arrFn parseCond allIdx)
 
 /-- {"cls","shape","lo","dx","op":"laplace"|"divergence","method","conservative","rank","dim",
@@ -118,5 +119,46 @@ def cons (j : Json) : Except String Json := do
     | _, _, _ => throw s!"no zero-sum theorem for {op} on {cls}/{shape.length}")
   pure (Json.mkObj [("ghost", jQs ((allIdx fshape).map a)), ("integral", jQ v)])
 
-def handlers : List (String × Handler) := [("c05.integral", integral), ("c05.cons", cons)]
+/-- The term the run theorems of `Props/C05d.lean` are about, evaluated at `Rat`:
+{"cls","shape","lo","dx","per":[bool..],"scheme":"euler"|"rk4","eq":"diffusion"|"cahn-hilliard","coef": D | γ,
+ "dt","ts","te","data":[values of the valid cells, row-major]}
+ -> {"state": `state.data` after `cellRuns (validCells shape) scheme (consRate …) dt te (dt/10^6) 16 ts data 0` (the controller loop
+     around `cellRun`), "t": final time, "steps": total number of steps, "mass0"/"mass1": `cellMass` (integral without the factor pi) before / after} -/
+def run (j : Json) : Except String Json := do
+  let clsS ← fldS j "cls"
+  let shape ← fldNs j "shape"
+  let lo ← fldQs j "lo"
+  let dx ← fldQs j "dx"
+  let per ← (do getL getB (← fld j "per"))
+  let schS ← fldS j "scheme"
+  let eqS ← fldS j "eq"
+  let coef ← fldQ j "coef"
+  let dt ← fldQ j "dt"
+  let ts ← fldQ j "ts"
+  let te ← fldQ j "te"
+  let data ← fldQs j "data"
+  let cls ← (match clsS with
+    | "cart" => pure GridCls.cart
+    | "polar" => pure GridCls.polar
+    | "sph" => pure GridCls.sph
+    | "cyl" => pure GridCls.cyl
+    | _ => throw s!"grid class {clsS}")
+  let sch ← (match schS with
+    | "euler" => pure RunScheme.euler
+    | "rk4" => pure RunScheme.rk4
+    | _ => throw s!"scheme {schS}")
+  let l0 : Rat := lo.getD 0 0
+  let mu ← (match eqS with
+    | "diffusion" => pure (muDiffusion coef)
+    | "cahn-hilliard" => pure (muCahnHilliard cls l0 dx (consFaces shape false dx per) coef)
+    | _ => throw s!"equation {eqS}")
+  let cells := validCells shape
+  if data.length ≠ cells.length then throw "data does not match the shape"
+  match cellRuns cells sch (consRate cls shape l0 dx per mu) dt te (dt / 1000000) 16 ts data 0 with
+  | none => throw "step failed"
+  | some (s', tr, steps) =>
+    pure (Json.mkObj [("state", jQs s'), ("t", jQ tr), ("steps", Json.num steps),
+      ("mass0", jQ (cellMass cls shape l0 dx data)), ("mass1", jQ (cellMass cls shape l0 dx s'))])
+
+def handlers : List (String × Handler) := [("c05.integral", integral), ("c05.cons", cons), ("c05.run", run)]
 end PdeVerif.Drv.C05
